@@ -5,7 +5,8 @@
    Part C  the generating building as a stored document: it evaluates to the generating curve
    Part D  order statistics of the insertion sort; the generator is feasible for the optimiser's box
    Part E  a temperature-independent document reports no load
-   Part F  stored parameters close to the generating ones => curves close at every temperature of a range *)
+   Part F  stored parameters close to the generating ones => curves close at every temperature of a range
+   Part G  the final fit's box as a function of the initial fit's result (get_bnds) *)
 From Coq Require Import Reals Lra Psatz List Bool Arith Lia NArith.
 From V Require Import Model.Num Model.NumR Model.DailyCurve Model.Recovery Proofs.DailyCurveProofs.
 Import ListNotations.
@@ -934,4 +935,72 @@ Proof.
   destruct Keep as [Eb1 Eb2]; [right; lra|]. subst hb' cb'.
   assert (hk' = 0) by (destruct K1; assumption). assert (ck' = 0) by (destruct K2; assumption). subst hk' ck'.
   reflexivity.
+Qed.
+
+(* ------------------------------------------------------------------------------------------ *)
+(* Part G: the final box as a function of the initial fit's result (fit_final_model.get_bnds)   *)
+(* ------------------------------------------------------------------------------------------ *)
+
+Lemma n_ten_R : (@n_ten NR = 10 :> R).
+Proof. unfold n_ten, n_two. cbn. ring. Qed.
+
+Lemma get_bnds_row_R : forall s x : R,
+  get_bnds_row NR s x = if Req_EM_T x 0 then (- (10 * s), 10 * s) else (x - Rabs x * s, x + Rabs x * s).
+Proof.
+  intros s x. unfold get_bnds_row. change (@n_eqb NR x n_zero) with (Reqb x 0). unfold Reqb.
+  destruct (Req_EM_T x 0); [|reflexivity].
+  change (@n_opp NR) with Ropp. change (@n_mul NR) with Rmult. rewrite n_ten_R. reflexivity.
+Qed.
+
+(* v is within the relative distance s of x0 (within 10 s of a zero x0) *)
+Definition near (s x0 v : R) : Prop :=
+  (x0 = 0 -> Rabs v <= 10 * s) /\ (x0 <> 0 -> Rabs (v - x0) <= Rabs x0 * s).
+
+Lemma get_bnds_row_in : forall s x0 v : R, near s x0 v ->
+  fst (get_bnds_row NR s x0) <= v <= snd (get_bnds_row NR s x0).
+Proof.
+  intros s x0 v [H0 H1]. rewrite get_bnds_row_R. destruct (Req_EM_T x0 0) as [E|E]; cbn [fst snd].
+  - specialize (H0 E). unfold Rabs in H0. destruct (Rcase_abs v); split; lra.
+  - specialize (H1 E). revert H1. generalize (Rabs x0 * s). intros d H1.
+    unfold Rabs in H1. destruct (Rcase_abs (v - x0)); split; lra.
+Qed.
+
+(* the initial fit's reduced vector has the generator's model class and slopes near the generating ones *)
+Definition initial_near (p : building NR) (s : R) (x0 : list R) : Prop :=
+  match shape_of NR p, x0 with
+  | HddTiddCdd, [_; hb0; _; cb0; _] => near s hb0 (b_hbeta p) /\ near s cb0 (b_cbeta p)
+  | HddTidd, [_; b0; _] => near s b0 (- b_hbeta p)
+  | TiddCdd, [_; b0; _] => near s b0 (b_cbeta p)
+  | Tidd, [_] => True
+  | _, _ => False
+  end.
+
+Lemma slope_rows_from_initial : forall (p : building NR) (s : R) (x0 : list R),
+  initial_near p s x0 -> slope_rows_ok p (map (get_bnds_row NR s) x0).
+Proof.
+  intros p s x0 H. unfold initial_near, slope_rows_ok in *.
+  destruct (shape_of NR p); try contradiction.
+  - destruct x0 as [|a0 [|a1 [|a2 [|a3 [|a4 [|a5 r]]]]]]; try contradiction. cbn [map].
+    destruct H as [H1 H2]. split; apply get_bnds_row_in; assumption.
+  - destruct x0 as [|a0 [|a1 [|a2 [|a3 r]]]]; try contradiction. cbn [map]. apply get_bnds_row_in; exact H.
+  - destruct x0 as [|a0 [|a1 [|a2 [|a3 r]]]]; try contradiction. cbn [map]. apply get_bnds_row_in; exact H.
+  - destruct x0 as [|a0 [|a1 r]]; try contradiction. cbn [map]. exact I.
+Qed.
+
+(* the generating building is feasible for the final fit's box as the code derives it from the initial fit *)
+Lemma generator_in_box_from_initial : forall (p : building NR) (nmin : nat) (T obs : list R) (s : R) (x0 : list R),
+  0 <= b_hbeta p -> 0 <= b_cbeta p ->
+  days_ok p nmin T -> initial_near p s x0 -> icpt_ok p obs ->
+  exists box, final_box_from_initial NR (key_of_shape (shape_of NR p)) nmin T obs s x0 = Some box /\
+              in_box NR box (raw_of NR p) = true.
+Proof.
+  intros p nmin T obs s x0 Hh Hc Hd Hn Hi. unfold final_box_from_initial.
+  apply generator_in_box; try assumption. apply slope_rows_from_initial. exact Hn.
+Qed.
+
+(* with the method's final_bounds_scalar = 1: the initial slope must be at least half the generating one *)
+Lemma near_scalar_one : forall x0 v : R, 0 < x0 -> 0 <= v <= 2 * x0 -> near 1 x0 v.
+Proof.
+  intros x0 v Hx [H1 H2]. split; [intros E; lra|]. intros _.
+  rewrite (Rabs_right x0) by lra. unfold Rabs. destruct (Rcase_abs (v - x0)); lra.
 Qed.
